@@ -176,7 +176,14 @@ def run(rep):
         rep.validated()
         rep.nontriv(("swt_num", name, H, W, J))
         try:
-            out = SWTForward(J=J, wave=name)(torch.tensor(x))
+            # the wavelet in every accepted form in turn, the three spellings of the mode, and ONE module object called
+            # first on an image of another size / channel count (a module must not remember anything about earlier inputs)
+            kf = names.index(name)
+            wave, form = dwtlib.wave_form(name, kf)
+            cfg["wave_form"] = form
+            mod = SWTForward(J=J, wave=wave, mode=["periodization", "per", "periodic"][kf % 3])
+            mod(torch.tensor(rng.standard_normal((1, 3, 2 ** J * 3, 2 ** J))))
+            out = mod(torch.tensor(x))
             err = 0.0
             for j in range(J):
                 cA, (cH, cV, cD) = ref[J - 1 - j]
